@@ -3,6 +3,7 @@ package rapid
 // L-TSTATE (C02, C10, C11): one checkOnce from a fresh T, any program.
 
 var alphaMain = []uint8{opReturn, opDrawBool, opErrorf, opErrorEmpty, opPanicNil, opFail, opFatalA, opFailNow, opPanicStr, opPanicErr, opNilDeref, opSkip, opCleanup, opCtx, opCustom}
+var alphaMainDeep = []uint8{opReturn, opDrawBool, opErrorf, opErrorEmpty, opPanicNil, opFatalA, opPanicStr, opNilDeref, opSkip, opCleanup, opCtx, opCustom}
 var alphaSub = []uint8{opReturn, opDrawBool, opErrorf, opErrorEmpty, opFatalB, opPanicStr, opSkip, opCtx, opCleanup}
 
 const (
@@ -15,10 +16,14 @@ const (
 // obligations of the given property.
 func tstate(mode int) {
 	k := 3
+	alpha := alphaMain
 	if thorough() {
+		// 4 opcodes over a reduced alphabet (near-duplicates dropped: Fail ~ Errorf, FailNow ~ Fatalf,
+		// panic(error) ~ panic(string)), so that the deeper bound still completes
 		k = 4
+		alpha = alphaMainDeep
 	}
-	p := newVProg("p", k, 2, alphaMain, alphaSub)
+	p := newVProg("p", k, 2, alpha, alphaSub)
 	tb := newVTB("T")
 	t := newT(tb, newBufBitStream(symWords("w", 4), false), false, nil)
 	vassert(freshT(t), "newT does not give a fresh T")
